@@ -47,7 +47,7 @@ func init() {
 			if tier == "quick" {
 				return 12
 			}
-			return 160
+			return 480
 		},
 		Batch:            4,
 		Workers:          8,
